@@ -137,7 +137,7 @@ PROPERTIES = {
               "derivative relation slope = 2 Re<grad, D> for the non-linear total energy is NOT proved (only evaluated natively on replay).",
         note="H by its C05 contract, Q by linearity; sqrtm/inv contracts; the chain-rule composition to the total energy is outside",
         explanation="normal-form equality in the operator algebra",
-        modules=["contracts.c04_c05_c01_c11"],
+        modules=["contracts.c04_c05_c01_c11", "contracts.c02"],
         level="proof",
         trusted_base=BASE_TRUST + ["in-house non-commutative normaliser (engine N)"],
         assumptions=["assumed contracts of sqrtm / inv / fft (listed per obligation)", "floats as exact complex numbers",
@@ -258,7 +258,7 @@ PROPERTIES = {
               "11 orders of magnitude in n, |zeta| < 0.998, independent gradient directions, s in [1e-2, 50]; SCF energy and gradient built-in vs bridge. "
               "The Chachiyo and finite-temperature closed forms are not written as spec functions (bounded comparison only).",
         note="the external libraries' array conventions are an assumed contract; the spec functions are part of the trusted base",
-        modules=["contracts.c09"],
+        modules=["contracts.c09", "contracts.c02"],
         level="proof",
         trusted_base=["CPython (executes the traced control flow)", "in-house exact-algebra normaliser (engine A)", "the spec functions in contracts/c09.py (published closed forms)"],
         assumptions=["pylibxc: rho / sigma / tau flattened point-major with spin (uu, ud, dd) fastest; outputs zk (N,1), vrho (N,Nspin), vsigma (N,1|3), vtau (N,Nspin)",
